@@ -33,3 +33,32 @@ Theorem C02_length_fields_exact : forall f cs, len (w_name f) <= 65535 -> centra
   len (central_z64 f) + len (w_extra f) <= 65535.
 Proof. exact central_length_fields. Qed.
 Print Assumptions C02_length_fields_exact.
+
+(* ---------- the local header agrees with the central record.
+   Two different decoders of the reader model -- the streaming reader's local-header parser and the directory parser --
+   applied to the local header the writer leaves behind (after patching CRC and sizes) and to the central record it
+   emits for the same stored entry return the same raw name, decoded name, UTF-8 flag, encryption flag, method,
+   timestamp, CRC-32, compressed and uncompressed size; and the UTF-8 flag is set exactly for non-ASCII names. *)
+From ZipV Require Import Gen.GenLib Gen.SpecGen Gen.TypesGen Spec.Utf8 Model.Stream Proofs.Zip64Proofs Proofs.CentralRoundtrip Proofs.WriterEntry Proofs.StreamRendered.
+Theorem C02_local_central_agree : forall f d c n front content rest ao cs pre post,
+  stored_rec f d -> c < 2 ^ 32 -> n <= ZIP64_BYTES_THR -> DateTime_datepart (w_time f) = Some d ->
+  let f' := wf_set_sizes f c n n in
+  wf_central f' ao -> central_header_chunks f' = Ok cs ->
+  exists gl p1 gc p2,
+    stream_next (front ++ lh_bytes f d c n n ++ content ++ rest) (len front) = Ok (SFile {| se_file := gl; se_data_start := p1 |}) /\
+    parse_central (pre ++ concat cs ++ post) (len pre) ao = Ok (gc, p2) /\
+    f_name_raw gl = f_name_raw gc /\ f_name gl = f_name gc /\ f_utf8 gl = f_utf8 gc /\ f_utf8 gc = negb (is_ascii (w_name f)) /\
+    f_encrypted gl = f_encrypted gc /\ f_method gl = f_method gc /\ f_time gl = f_time gc /\
+    f_crc gl = f_crc gc /\ f_csize gl = f_csize gc /\ f_usize gl = f_usize gc.
+Proof.
+  intros f d c n front content rest ao cs pre post R Hc Hn Hd f' W Hcs.
+  destruct (stream_next_rendered f d c n front content rest R Hc Hn) as (dt & Hdt & Hsn).
+  destruct (central_roundtrip f' ao cs pre post W Hcs) as (d' & dt' & Hd' & Hdt' & Hp).
+  assert (d' = d) by (subst f'; cbn [wf_set_sizes w_time] in Hd'; rewrite Hd in Hd'; now injection Hd'). subst d'.
+  assert (dt' = dt) by (subst f'; cbn [wf_set_sizes w_time] in Hdt'; rewrite Hdt in Hdt'; now injection Hdt'). subst dt'.
+  do 4 eexists. split; [exact Hsn|]. split; [exact Hp|].
+  subst f'. cbn [stream_file decoded wf_set_sizes f_name_raw f_name f_utf8 f_encrypted f_method f_time f_crc f_csize f_usize
+               w_name w_method w_encrypted w_crc w_csize w_usize].
+  rewrite (sr_method _ _ R), (sr_enc _ _ R). repeat split.
+Qed.
+Print Assumptions C02_local_central_agree.
